@@ -318,7 +318,7 @@ def check_one(args):
         rc, out = sh(f"{VERIF}/check {c} --tier quick --no-build", env=env, timeout=900)
         line = next((l for l in out.splitlines() if l.startswith("VIOLATION")), "")
         tried.append([c, rc])
-        if rc != 0:
+        if rc == 1 and line:   # an alarm; exit 2 (infrastructure error) is no detection
             kind = "nfi" if "no-failing-input-found" in line else ("viol" if line else f"rc{rc}")
             first = next((l.strip()[:160] for l in out.splitlines() if l.strip().startswith("first")), "")
             caught = [c, kind, first]
